@@ -595,11 +595,10 @@ func c46bRouteMenu(thorough bool) []c46bRoute {
 		{nil, 500000},
 	}
 	if thorough {
-		paths = append(paths, c46bRoute{PathKind: "path", Pat: "/s/m"}, c46bRoute{PathKind: "prefix", Pat: "/S/", CI: true})
+		paths = append(paths, c46bRoute{PathKind: "prefix", Pat: "/S/", CI: true})
 		mods = append(mods,
-			hf{[]c46bHdr{{Name: "h", Kind: "present", Flag: true, Inv: true}}, -1},
-			hf{[]c46bHdr{{Name: "h", Kind: "exact", Pat: "a", Inv: true}}, 0},
-			hf{[]c46bHdr{{Name: "h", Kind: "range", Lo: 0, Hi: 10}}, 1000000})
+			hf{[]c46bHdr{{Name: "h", Kind: "present", Flag: true, Inv: true}}, 1000000},
+			hf{[]c46bHdr{{Name: "h", Kind: "range", Lo: 0, Hi: 10}, {Name: "g", Kind: "exact", Pat: "a", Inv: true}}, 0})
 	}
 	var out []c46bRoute
 	for _, p := range paths {
@@ -637,13 +636,12 @@ func c46bRouting(r *vk.Run, e *c46bEnv) {
 	methods := []string{"/s/m", "/S/M", "/s/x", "/t/m"}
 	mds := []map[string][]string{nil, {"h": {"a"}}, {"h": {"a", "a"}}}
 	extras := []map[string][]string{nil}
-	draws := []int64{0, 499999, 500000, 500001}
+	draws := []int64{0, 500000, 500001}
 	ks := []int{0, 1}
 	if r.Thorough() {
-		mds = append(mds, map[string][]string{"h": {"5"}}, map[string][]string{"g": {"a"}})
+		mds = append(mds, map[string][]string{"h": {"5"}, "g": {"a"}})
 		extras = append(extras, map[string][]string{"h": {"a"}})
-		draws = append(draws, 999999)
-		ks = append(ks, 2)
+		draws = append(draws, 499999)
 		authorities = append(authorities, "ab")
 	}
 	other := c46bRoute{PathKind: "prefix", Pat: "", Fraction: -1, Single: "other"}
@@ -1161,7 +1159,7 @@ func TestVerif_C46_Resolver(t *testing.T) {
 	const P = c46bP
 	r := vk.Start(t, "c46b_resolver", "exploration", P)
 	defer r.Finish()
-	r.Rule(P, "RouteConfiguration protos decoded by the production RDS decoder, virtual host by FindBestMatchingVirtualHost, config selector by xdsResolver.newConfigSelector, RPCs through SelectConfig. (R) every list of 1..3 routes over a menu of 12 routes (quick; 30 thorough) = {prefix '', prefix /s/, path /s/m case-insensitive, regex /t/.*} x {no header, header h exact a, fraction 500000} placed in virtual host #0 of 3 domain layouts x 2 authorities, x RPCs {4 methods x 3 metadata x 4 fraction draws x 2 WRR choices}; oracle: brute-force best virtual host, FIRST route whose path, header and fraction matchers all hold, the WRR-chosen non-zero-weight cluster of that route; non-trivial = RPCs for which >=2 routes match. (W) every weighted_clusters list of length 1..3 over weights {0,1,2,5}: each non-zero cluster is added to the WRR with exactly its weight and the WRR's choice is the cluster used. (H) every hash-policy list of length 1..2 (3 thorough) over {header h1, h1 terminal, h2, h1 regex-rewrite, channel_id, channel_id terminal, header x-bin} x 16 metadata layouts: the request hash is unchanged by every perturbation of a non-configured input (method, authority, other user headers, extra metadata, fraction draw, channel id when no channel_id policy); non-trivial = perturbed evaluations")
+	r.Rule(P, "RouteConfiguration protos decoded by the production RDS decoder, virtual host by FindBestMatchingVirtualHost, config selector by xdsResolver.newConfigSelector, RPCs through SelectConfig. (R) every list of 1..3 routes over a menu of 12 routes (quick; 25 thorough) = {prefix '', prefix /s/, path /s/m case-insensitive, regex /t/.*} x {no header, header h exact a, fraction 500000} placed in virtual host #0 of 3 domain layouts x 2 authorities, x RPCs {4 methods x 3 metadata x 3 fraction draws x 2 WRR choices}; oracle: brute-force best virtual host, FIRST route whose path, header and fraction matchers all hold, the WRR-chosen non-zero-weight cluster of that route; non-trivial = RPCs for which >=2 routes match. (W) every weighted_clusters list of length 1..3 over weights {0,1,2,5}: each non-zero cluster is added to the WRR with exactly its weight and the WRR's choice is the cluster used. (H) every hash-policy list of length 1..2 (3 thorough) over {header h1, h1 terminal, h2, h1 regex-rewrite, channel_id, channel_id terminal, header x-bin} x 16 metadata layouts: the request hash is unchanged by every perturbation of a non-configured input (method, authority, other user headers, extra metadata, fraction draw, channel id when no channel_id policy); non-trivial = perturbed evaluations")
 
 	e, err := c46bNewEnv()
 	if err != nil {
